@@ -9,6 +9,7 @@ EXTENDS FlvFile, TLC, Json
 
 CONSTANTS Sizes,     \* body sizes of the matrix
           BigSizes,  \* body sizes that are only combined sparsely (2^24-1)
+          BigFull,   \* FALSE: two files with such a body; TRUE: every type and timestamp, every position
           SeqLens,   \* lengths of the multi-tag files
           Salts,     \* how many different type/timestamp/flag assignments each size sequence gets
           SimLen     \* number of tags of a simulated file
@@ -45,7 +46,13 @@ TsFam   == UNION { { [fam |-> "ts", flags |-> FlagsAt(salt + 1),
                       tags |-> [i \in 1..len |-> Tag(TypeAt(i, salt + 2), s[i], SmallSeq[((i + salt) % 3) + 1], i)]] :
                        s \in [1..len -> Range(TsSeq)], salt \in Salts \cap {0, 1} } : len \in SeqLens \cap {2, 3} }
 \* 2^24-1 bodies: PreviousTagSize needs its top byte; alone with every type and timestamp, and at every position of a file
-BigFam  == { [fam |-> "big", flags |-> FlagsAt(ti + tsi), tags |-> <<Tag(TypeSeq[ti], TsSeq[tsi], b, 1)>>] :
+BigFam  == IF ~BigFull
+           THEN { [fam |-> "big", flags |-> FlagsAt(3), tags |-> <<Tag(9, <<255, 16777215>>, b, 1)>>] : b \in BigSizes }
+                \cup
+                { [fam |-> "bigseq", flags |-> FlagsAt(2), tags |-> <<Tag(8, <<1, 0>>, 1, 1), Tag(18, <<0, 1>>, b, 2), Tag(9, <<128, 0>>, 0, 3)>>] :
+                    b \in BigSizes }
+           ELSE
+           { [fam |-> "big", flags |-> FlagsAt(ti + tsi), tags |-> <<Tag(TypeSeq[ti], TsSeq[tsi], b, 1)>>] :
                ti \in 1..5, tsi \in 1..6, b \in BigSizes }
            \cup
            { [fam |-> "bigseq", flags |-> FlagsAt(p),
